@@ -268,3 +268,6 @@ HARNESSES += [
             stubs=["state constructed directly (see H06-step)"]),
 ]
 
+
+from engine.harness import borrowed  # noqa: E402
+HARNESSES.append(borrowed("c12", "H12-consume-mem", "H19h-consumer-expiry"))   # the consumer's expiry decision is "now > timestamp + ttl" at the moment of delivery
